@@ -59,11 +59,22 @@ fn res_json(r: &Result<Complex64, EvaluationError>) -> Value {
     }
 }
 
-fn sigma_value(j: usize) -> Complex64 {
-    Complex64::new(1.25 + 0.5 * j as f64, -0.75 + 0.25 * j as f64)
+/// scheme 0: generic complex values; scheme 1: real values with negative reals and fractional magnitudes
+/// (x = -4, y = 0.5, ...: `%x^%y` sits on the branch cut of `^`; both evaluation paths receive exactly the
+/// same complex numbers, so they must still agree bit for bit - no filter is needed or applied here)
+fn sigma_value(j: usize, scheme: usize) -> Complex64 {
+    if scheme == 1 {
+        Complex64::new([-4.0, 0.5, -2.25, 1.5, -0.75][j % 5], 0.0)
+    } else {
+        Complex64::new(1.25 + 0.5 * j as f64, -0.75 + 0.25 * j as f64)
+    }
 }
-fn rho_value(j: usize) -> Complex64 {
-    Complex64::new(-0.625 + 0.375 * j as f64, 1.5 - 0.5 * j as f64)
+fn rho_value(j: usize, scheme: usize) -> Complex64 {
+    if scheme == 1 {
+        Complex64::new([-9.0, 1.5, 0.25, -0.5, 3.0][j % 5], 0.0)
+    } else {
+        Complex64::new(-0.625 + 0.375 * j as f64, 1.5 - 0.5 * j as f64)
+    }
 }
 
 struct Assignment {
@@ -78,23 +89,35 @@ fn check_assignment(
     names: &[String],
     a: &Assignment,
     supplied: bool,
+    scheme: usize,
     o: &mut Outcome,
 ) -> (bool, bool) {
     let idx = |v: &String| names.iter().position(|n| n == v).unwrap_or(0);
     let sigma: HashMap<String, Expression> =
-        a.sdom.iter().map(|v| (v.clone(), number(sigma_value(idx(v))))).collect();
-    let rho: HashMap<String, Complex64> = a.vdom.iter().map(|v| (v.clone(), rho_value(idx(v)))).collect();
+        a.sdom.iter().map(|v| (v.clone(), number(sigma_value(idx(v), scheme)))).collect();
+    let rho: HashMap<String, Complex64> = a.vdom.iter().map(|v| (v.clone(), rho_value(idx(v), scheme))).collect();
     let mut both = rho.clone();
     for v in &a.sdom {
-        both.insert(v.clone(), sigma_value(idx(v)));
+        both.insert(v.clone(), sigma_value(idx(v), scheme));
     }
     let mem: HashMap<String, Vec<f64>> =
         a.shape.iter().map(|(r, n)| (r.clone(), (0..*n).map(|k| 0.75 + 0.5 * k as f64).collect())).collect();
     let direct = e.evaluate(&both, &mem);
-    let via = e.substitute_variables(&sigma).evaluate(&rho, &mem);
+    let substituted = e.substitute_variables(&sigma);
+    let via = substituted.evaluate(&rho, &mem);
+    // substitution by numbers leaves the memory references alone (ExprEval!SubstNames; informational - the
+    // statement's verdict on such a defect is the value / success disagreement below)
+    {
+        let (mut before, mut after) = (vec![], vec![]);
+        c03::addresses(e, &mut before);
+        c03::addresses(&substituted, &mut after);
+        if bag(&before) != bag(&after) {
+            o.diverge(format!("substitute_variables changed the memory references: {} -> {}", refs_json(&before), refs_json(&after)));
+        }
+    }
     o.sub_evaluations += 1;
     let describe = || {
-        json!({"substituted": a.sdom, "bound": a.vdom, "memory_lengths": a.shape}).to_string()
+        json!({"substituted": a.sdom, "bound": a.vdom, "memory_lengths": a.shape, "value_scheme": scheme}).to_string()
     };
     if direct.is_ok() != supplied || matches!(&direct, Err(x) if *x != EvaluationError::Incomplete) {
         o.violate(
@@ -130,7 +153,7 @@ fn check_compose(e: &Expression, a: &Assignment, names: &[String], o: &mut Outco
     ];
     let sigma: HashMap<String, Expression> =
         a.sdom.iter().map(|v| (v.clone(), images[idx(v) % images.len()].clone())).collect();
-    let rho: HashMap<String, Complex64> = a.vdom.iter().map(|v| (v.clone(), rho_value(idx(v)))).collect();
+    let rho: HashMap<String, Complex64> = a.vdom.iter().map(|v| (v.clone(), rho_value(idx(v), 0))).collect();
     let mem: HashMap<String, Vec<f64>> =
         a.shape.iter().map(|(r, n)| (r.clone(), (0..*n).map(|k| 0.75 + 0.5 * k as f64).collect())).collect();
     let lhs = e.substitute_variables(&sigma).evaluate(&rho, &mem);
@@ -243,7 +266,8 @@ pub fn replay(_ctx: &Ctx, case: &Value) -> Outcome {
                 let mut bound: Vec<String> = sdom.clone();
                 bound.extend(vdom.iter().cloned());
                 let supplied = is_supplied(&vars, &occurring, &bound, shape);
-                check_assignment(&e, &names, &a, supplied, &mut o);
+                check_assignment(&e, &names, &a, supplied, 0, &mut o);
+                check_assignment(&e, &names, &a, supplied, 1, &mut o);
                 check_compose(&e, &a, &names, &mut o);
                 if !o.violations.is_empty() || o.divergences.len() > 3 {
                     break 'all;
@@ -267,7 +291,11 @@ pub fn drive(ctx: &Ctx) -> Summary {
         vars: &["x", "y", "theta"],
         // two regions are named like reserved words of the expression grammar (no text is involved in C13,
         // the listing and the lookup must simply not care)
-        addrs: &[("m", 0), ("m", 1), ("n", 1), ("ro", 2), ("ro", 0), ("exp", 1), ("pi", 0)],
+        // and two regions share their name with a variable (theta, x), at index 0 and 1
+        addrs: &[
+            ("m", 0), ("m", 1), ("n", 1), ("ro", 2), ("ro", 0), ("exp", 1), ("pi", 0), ("theta", 0), ("theta", 1),
+            ("x", 0), ("x", 1),
+        ],
         ops: c03::OPS,
         fns: c03::FUNCTIONS,
         pi: true,
@@ -307,11 +335,11 @@ pub fn drive(ctx: &Ctx) -> Summary {
         util::emit(&mut out, &json!({"ev": "subst", "sigma": sig_list, "out": c03::to_abs(&substituted)}));
         // a few random partial assignments
         let mut events = 3;
-        for _ in 0..4 {
+        for k in 0..4usize {
             let sd: Vec<String> = universe.iter().filter(|_| rng.gen_bool(0.45)).cloned().collect();
             let vd: Vec<String> = universe.iter().filter(|_| rng.gen_bool(0.6)).cloned().collect();
             let mut shape = BTreeMap::new();
-            for r in ["m", "n", "ro", "exp", "pi"] {
+            for r in ["m", "n", "ro", "exp", "pi", "theta", "x"] {
                 if rng.gen_bool(0.8) {
                     shape.insert(r.to_string(), rng.gen_range(0..=3usize));
                 }
@@ -320,7 +348,7 @@ pub fn drive(ctx: &Ctx) -> Summary {
             let mut bound = sd.clone();
             bound.extend(vd.iter().cloned());
             let supplied = is_supplied(&vars, &occurring, &bound, &shape);
-            let (ok_direct, ok_subst) = check_assignment(&e, &universe, &a, supplied, &mut o);
+            let (ok_direct, ok_subst) = check_assignment(&e, &universe, &a, supplied, k % 2, &mut o);
             let mem: Vec<Value> = shape.iter().map(|(r, l)| json!({"name": r, "len": l})).collect();
             util::emit(&mut out, &json!({"ev": "eval", "sdom": sd, "vdom": vd, "mem": mem,
                                          "ok_direct": ok_direct, "ok_subst": ok_subst}));
